@@ -1,7 +1,9 @@
 """C01 - GBN delivers every message exactly once, in order and intact.
 
 1. TLC checks PrefixDelivery (and the window invariants that explain it) on
-   spec/GBN.tla for every interleaving of the bounded configurations.
+   spec/GBN.tla for every interleaving of the bounded configurations, and
+   that GBN.tla refines the channel the upper layers assume (RelChan.tla);
+   larger bidirectional configurations are explored by random simulation.
 2. The real GoBackNConn pair is run under virtual time over a faulty vnet; the
    recorded traces are validated line by line against the same specification
    (spec/Trace_GBN.tla), PrefixDelivery being evaluated in every state."""
@@ -23,6 +25,14 @@ def run(ctx):
         # code); it is never reported as a verdict on the code.
         raise Infra("GBN.tla violates %s in config %s:\n%s" %
                     (bad[0][1], bad[0][0], bad[0][2][-3000:]))
+
+    # 1b. random exploration of configurations beyond exhaustive reach
+    sim_tr, sim_st, sim_per, sim_bad = gbnmc.run_sim(
+        ctx, 300 if quick else 5000,
+        names=["n2_bidir_4x3_pings_3drop_2dup"] if quick else None)
+    if sim_bad:
+        raise Infra("GBN.tla violates %s in simulated config %s:\n%s" %
+                    (sim_bad[0][1], sim_bad[0][0], sim_bad[0][2][-3000:]))
 
     # 2. implementation traces
     binary = build_drivers(ctx)
@@ -51,6 +61,8 @@ def run(ctx):
                 "injected; distinct = distinct run descriptors",
         "samples": samples,
         "mc_configs": per,
+        "simulated_behaviours": sim_tr, "simulated_states_checked": sim_st,
+        "simulated_configs": sim_per,
         "exhaustive": False,
         "checker_cmd": "tlc MC_GBN.tla (per config) ; tlc MC_Trace_GBN.tla "
                        "(per window size)",
